@@ -8,6 +8,7 @@ import (
 	"fmt"
 	"net/http"
 	"sort"
+	"strings"
 	"testing"
 	"time"
 
@@ -54,7 +55,7 @@ func genResp(r *Rng, tier string, p *Plan) {
 		now += PickOf(r, int64(100_000), 100_000, 300_000, 1_000_000)
 		kind := PickOf(r, "batch", "batch", "batch", "event", "otlp_traces", "otlp_logs")
 		if park {
-			kind = PickOf(r, "batch", "batch", "event")
+			kind = PickOf(r, "batch", "batch", "event", "otlp_traces", "otlp_logs")
 		}
 		op := Op{K: "req", At: now, I: int64(r.Intn(nodes)), T: kind, S: PickOf(r, "json", "msgpack")}
 		op.J = int64(r.Range(1, 4)) // events in the request
@@ -97,6 +98,7 @@ func genResp(r *Rng, tier string, p *Plan) {
 }
 
 type respReq struct {
+	droppedBefore, droppedAfter float64 // the router's "dropped because the queue was full" counter around the request
 	op      Op
 	req     *bRequest
 	kind    string
@@ -234,6 +236,7 @@ func runResp(t *testing.T, p *Plan) *Outcome {
 				}
 				reqs = append(reqs, rr)
 				w.drv.AtSig(us(op.At), "request", fmt.Sprintf("op/%d", op.ID), fmt.Sprintf("%d/%s/%d", op.I, op.T, op.M), func() {
+					rr.droppedBefore, _ = w.nodes[rr.req.node].mm.Get("incoming_router_dropped")
 					if rr.raw != nil {
 						n := w.nodes[rr.req.node]
 						rr.req.resp = newRespRec()
@@ -251,6 +254,16 @@ func runResp(t *testing.T, p *Plan) *Outcome {
 			}
 		}
 		_ = parked
+		w.drv.AfterStep = func(kind, ident string) {
+			if kind != "request" {
+				return
+			}
+			for _, rr := range reqs {
+				if fmt.Sprintf("op/%d", rr.op.ID) == ident {
+					rr.droppedAfter, _ = w.nodes[rr.req.node].mm.Get("incoming_router_dropped")
+				}
+			}
+		}
 		w.drv.Run(us(last) + 14*time.Second) // an auth lookup may take the 10s client timeout
 
 		// ---- oracle
@@ -281,7 +294,14 @@ func runResp(t *testing.T, p *Plan) *Outcome {
 			for _, mk := range rr.markers {
 				seen += hnyBy[mk] + peerBy[mk]
 			}
-			log = append(log, fmt.Sprintf("op#%d %s status=%v seen=%d body=%.80s", rr.op.ID, rr.kind, r.resp.statuses, seen, r.resp.body.String()))
+			body := r.resp.body.String()
+		if !strings.HasPrefix(body, "{") && !strings.HasPrefix(body, "[") {
+			body = fmt.Sprintf("<%d bytes, not JSON>", len(body)) // OTLP status messages embed net/http's timeout wording, which varies
+			if len(r.resp.body.Bytes()) > 0 {
+				body = "<non-JSON body>"
+			}
+		}
+		log = append(log, fmt.Sprintf("op#%d %s status=%v seen=%d body=%.80s", rr.op.ID, rr.kind, r.resp.statuses, seen, body))
 			if rr.op.B {
 				out.Probe("body_read_error")
 			}
@@ -338,11 +358,24 @@ func runResp(t *testing.T, p *Plan) *Outcome {
 					}
 				}
 			default:
-				// single event / OTLP success: every event must at least have been attempted
+				// single event / OTLP success: every event must at least have been attempted.
+				// An attempt refused by a full queue counts (OTLP has no per-event status);
+				// the router counts those refusals.
+				refused := int(rr.droppedAfter - rr.droppedBefore)
+				missing := 0
 				for _, mk := range rr.markers {
-					if hnyBy[mk] != 1 {
-						out.Violate("C23", "success_but_events_discarded", site+"."+rr.kind, "%s was answered %d but event %s reached Honeycomb %d times", desc, st, mk, hnyBy[mk])
+					if hnyBy[mk] > 1 {
+						out.Violate("C23", "accepted_event_not_accounted_once", site+"."+rr.kind, "%s: event %s reached Honeycomb %d times", desc, mk, hnyBy[mk])
 					}
+					if hnyBy[mk] == 0 {
+						missing++
+					}
+				}
+				if refused > 0 {
+					out.Probe("otlp_or_event_queue_full")
+				}
+				if missing > refused {
+					out.Violate("C23", "success_but_events_discarded", site+"."+rr.kind, "%s was answered %d but %d of its events never reached Honeycomb and only %d were refused by a full queue", desc, st, missing, refused)
 				}
 			}
 		}
